@@ -121,13 +121,14 @@ func main() {
 	fnFlag := fs.String("fn", "", "comma separated function keys (default: all)")
 	timeout := fs.Int("timeout", 10000, "per-obligation solver timeout (ms)")
 	cross := fs.Bool("cross", true, "retry failures on the other solvers")
+	obFilter := fs.String("ob", "", "only solve obligations whose name contains this text")
 	keepOb := fs.String("keepob", "", "with -keep: also write the sliced query of obligations whose name contains this text")
 	batch := fs.Int("batch", 12, "number of obligations proved per solver query (failures are retried one by one)")
 	verbose := fs.Bool("v", false, "verbose")
 	tier := fs.String("tier", "quick", "quick|thorough")
 	keep := fs.String("keep", "", "keep solver files in this directory (default: temporary directory removed at exit)")
 	fs.Parse(os.Args[2:])
-	solveSem = make(chan struct{}, runtime.NumCPU())
+	solveSem = make(chan struct{}, (runtime.NumCPU()*3+3)/4) // each slot may run two racing solver processes
 	workDir = *keep
 	if workDir == "" {
 		d, err := os.MkdirTemp("", "govc-work-")
@@ -145,7 +146,16 @@ func main() {
 	}
 	var fns []*ssa.Function
 	if *fnFlag == "" {
-		fns = e.allFns
+		if cmd == "verify" {
+			e.scan()
+			for _, fn := range e.allFns {
+				if !e.skipStandalone(fn) {
+					fns = append(fns, fn)
+				}
+			}
+		} else {
+			fns = e.allFns
+		}
 	} else {
 		for _, k := range strings.Split(*fnFlag, ",") {
 			fn := e.fns[k]
@@ -185,7 +195,11 @@ func main() {
 	case "verify":
 		e.scan()
 		opts := SolveOpts{WorkDir: workDir, Keep: *keep != "", TimeoutMs: *timeout, Cross: *cross, Batch: *batch, KeepOb: *keepOb}
-		rr := e.verifyFuncs(fns, opts, nil)
+		var flt func(*Obligation) bool
+		if *obFilter != "" {
+			flt = func(ob *Obligation) bool { return strings.Contains(ob.Name, *obFilter) }
+		}
+		rr := e.verifyFuncs(fns, opts, flt)
 		nOb, nOK := 0, 0
 		for _, fr := range rr.Funcs {
 			if fr.Err != "" {
